@@ -41,10 +41,17 @@ def run(ctx: Ctx):
             nx = max(nx, 2); levels = (levels + [1, 1])[:nx]; kpl = min(kpl, 2)      # a load in newtons); nothing may treat such a grid as a single node
             domains = ([(1e-9, 3e-9)] if i == 1 else [(0.0, 1e-9)]) + [(100.0, 400.0)] + [rand_domain(rng) for _ in range(nx - 2)]
             norms = None
+        # every fifth component (un-normalised): the domain of its first input is widened in the middle of the history (better bounds became known);
+        # the grids grown afterwards live on the new domain, the model is what it was: the surrogate stays exact
+        widen = None
+        if i % 5 == 3:
+            norms = None
+            w0 = domains[0][1] - domains[0][0]
+            widen = ('x0', (domains[0][0] - 2.0 * w0, domains[0][1] + 1.0 * w0))
         comp, terms = p_exact.build_poly_component(rng, nx, na, ny, levels, kpl, domains, norms)
         mx = (2,) * na + tuple(levels)
         order = p_exact.random_order(rng, mx, rng.randint(1, 8 if nx <= 2 else 5))
-        case = {'nx': nx, 'na': na, 'ny': ny, 'kpl': kpl, 'levels': levels, 'domains': domains, 'norms': norms, 'order': order}
+        case = {'nx': nx, 'na': na, 'ny': ny, 'kpl': kpl, 'levels': levels, 'domains': domains, 'norms': norms, 'order': order, 'domain_widened_mid_history': widen}
         ok = True
         for mode in ('train', 'test'):
             # the polynomial must be fixed before training data are generated: choose the set first (it only depends on the order)
@@ -55,7 +62,9 @@ def run(ctx: Ctx):
             p_exact.fill_terms(rng, terms, S, na, nx, kpl)
             case_m = {**case, 'mode': mode, 'terms': {k: list(v) for k, v in terms.items()}}
             try:
-                p_exact.grow_to(comp, na, order)
+                if widen is not None:
+                    comp.inputs[widen[0]].update_domain(domains[0], override=True)       # (second mode: back to the declared domain first)
+                p_exact.grow_to(comp, na, order, widen_after=min(2, len(order) - 1), widen=widen)
             except Exception as e:
                 ctx.violate('C03:activation-raises', f'activate_index raised {type(e).__name__}: {e}', case_m); ok = False; break
             pts = p_exact.sample_points(rng, comp, domains, nx, 4)
